@@ -115,6 +115,7 @@ func runC16(p *Prog, r *Report) {
 	r.Describe("C16.10/drop-does-not-disconnect", "an unacceptable message (short, over the hop limit, unknown id) is discarded and the receiver carries on: it never costs the connection")
 	dropDoesNotDisconnect(p, r, "C16.10/drop-does-not-disconnect", func(rel string) bool { return strings.HasPrefix(rel, "protocol/") })
 	r.Floor("C16.10/drop-does-not-disconnect", "wire.receiver_drops", 15)
+	c19OptionsReadAtUse(p, r, "C16.11/limit-read-per-connection")
 	r.Describe("C16.8/accept-loop", "the accept goroutine of every stream transport never waits for an accepted peer (no read, TLS or SP handshake inside the loop around Accept)")
 	acceptLoopRules(p, r, "C16.8/accept-loop")
 	r.Floor("C16.8/accept-loop", "wire.accept_loops", 3)
